@@ -309,7 +309,9 @@ Definition tcp_last_scaled_window (s : socket) : outcome (option Z) :=
   | Some last_ack =>
       let next_ack := seq_add (s_remote_seq_no s) (rb_len (s_rx_buffer s)) in
       let last_win := shl (s_remote_last_win s) (s_remote_win_shift s) in
-      do last_win_adjusted <- seq_sub (seq_add last_ack last_win) next_ack;
+      let last_win_end := seq_add last_ack last_win in
+      if seq_lt last_win_end next_ack then Ok (Some 0) else
+      do last_win_adjusted <- seq_sub last_win_end next_ack;
       Ok (Some (u16_try (shr last_win_adjusted (s_remote_win_shift s))))
   end.
 
@@ -824,7 +826,8 @@ Definition tcp_process_zwp (cx : ctx) (s : socket) (ack_len : Z) : socket * Z :=
     then (upd_timer s (timer_set_for_zero_window_probe (cx_now cx)
                          (rtte_retransmission_timeout (s_rtte s))), 186)
     else (s, 185) in
-  if negb (s_remote_win_len s =? 0) && timer_is_zero_window_probe (s_timer s)
+  if (negb (s_remote_win_len s =? 0) || rb_is_empty (s_tx_buffer s))
+     && timer_is_zero_window_probe (s_timer s)
   then
     let s := upd_timer s (timer_set_for_idle (cx_now cx) (s_keep_alive s)) in
     if negb (s_remote_last_seq s =? s_local_seq_no s)
@@ -930,7 +933,7 @@ Definition tcp_process (cx : ctx) (s : socket) (ip : ip_repr) (r : tcp_repr)
 
 Definition tcp_window_to_update (s : socket) : outcome bool :=
   match s_state s with
-  | SynSent | SynReceived | Established | FinWait1 | FinWait2 =>
+  | SynSent | Established | FinWait1 | FinWait2 =>
       let new_win := tcp_scaled_window s in
       do lw <- tcp_last_scaled_window s;
       match lw with
@@ -1008,7 +1011,7 @@ Definition tcp_dispatch_timers (cx : ctx) (s : socket) : outcome (socket * Z) :=
   else Ok (s, 200).
 
 (* l.2519-2544: is there a reason to send?  Some tag = go on (210-215); None = return, with the
-   socket (reset when the TIME-WAIT timer expired).  Tags 210-217. *)
+   socket (CLOSED, tuple cleared, when the TIME-WAIT timer expired).  Tags 210-217. *)
 Definition tcp_dispatch_decide (cx : ctx) (s : socket) : outcome (socket * bool * Z) :=
   let now := cx_now cx in
   do stt <- tcp_seq_to_transmit cx s;
@@ -1019,7 +1022,8 @@ Definition tcp_dispatch_decide (cx : ctx) (s : socket) : outcome (socket * bool 
   if tcp_state_eqb (s_state s) Closed then Ok (s, true, 213) else
   if timer_should_keep_alive (s_timer s) now then Ok (s, true, 214) else
   if timer_should_zero_window_probe (s_timer s) now then Ok (s, true, 215) else
-  if timer_should_close (s_timer s) now then Ok (tcp_reset s, false, 216) else
+  if timer_should_close (s_timer s) now
+  then Ok (upd_tuple (tcp_set_state s Closed) None, false, 216) else
   Ok (s, false, 217).
 
 (* l.2546-2734: construct the segment.  Returns the socket (pending_fast_retransmit may be cleared),
@@ -1113,7 +1117,9 @@ Definition tcp_dispatch_finish (cx : ctx) (s : socket) (repr : tcp_repr)
   let seg_end := seq_add (r_seq_number repr) (repr_segment_len repr) in
   let s := upd_remote_last_seq s (seq_max (s_remote_last_seq s) seg_end) in
   let s := upd_remote_last_ack s (r_ack_number repr) in
-  let s := upd_remote_last_win s (r_window_len repr) in
+  let s := upd_remote_last_win s (if control_eqb (r_control repr) CSyn
+                                  then shr (r_window_len repr) (s_remote_win_shift s)
+                                  else r_window_len repr) in
   let s := if repr_segment_len repr >? 0
            then upd_rtte s (rtte_on_send (s_rtte s) now seg_end) else s in
   let '(s, tg) :=
